@@ -202,6 +202,10 @@ func selectCurrentReplicaSet(daemonset *datadoghqv1alpha1.ExtendedDaemonSet, act
 	isEnded, requeueAfter = IsCanaryDeploymentEnded(daemonset.Spec.Strategy.Canary, upToDateRS, now)
 	isPaused, _ := IsCanaryDeploymentPaused(dsAnnotations, upToDateRS)
 	isValid := IsCanaryDeploymentValid(dsAnnotations, upToDateRS.GetName())
+	if !isValid && IsCanaryDeploymentFailed(upToDateRS) {
+		// A failed canary is never promoted by elapsed time: it is rolled back.
+		return activeRS, requeueAfter
+	}
 	if isValid || (!isPaused && isEnded) {
 		return upToDateRS, requeueAfter
 	}
